@@ -8,6 +8,8 @@ no value written more often than sent; a schedule that cannot finish is a deadlo
 
 from __future__ import annotations
 
+import asyncio
+
 import itertools
 
 from ..harness import run as arun
@@ -108,7 +110,134 @@ def judge(ctx, config: dict, prefix, outcome, mode: str) -> None:
         ctx.violation("send-raised-" + err["class"], f"schedule {' '.join(outcome.labels)}: send raised {err}", case)
 
 
+async def tcp_flush_race_case(ctx, version: str, n_parked: int, payload_len: int) -> None:
+    """The send / flush race on a REAL transport: Gateway over loopback TCP, the peer (the gateway device) announces that
+    node A is awake and then stops reading for a while, so the flush is stuck in the transport's back-pressure; meanwhile
+    the application sends new values for keys that are parked; the peer reads again, the node wakes twice more.  Same
+    oracle as the scheduler's: per key the last value sent is the last value written, nothing written more often than
+    sent, every write carries a sent value.  (Transports may batch, pipeline, or drain once per wake - the scripted
+    transport of the scheduler cannot show that.)"""
+    import socket
+
+    from aiomysensors.gateway import Config, Gateway
+    from aiomysensors.model.message import Message
+    from aiomysensors.model.node import Child, Node
+    from aiomysensors.transport.tcp import TCPTransport
+
+    case = {"kind": "tcp-flush-race", "version": version, "parked": n_parked, "payload_len": payload_len}
+    wake = 32 if version == "2.2" else 22
+    received = bytearray()
+    resume = asyncio.Event()
+    peer_writer_box: list = []
+    connected = asyncio.Event()
+
+    async def handler(reader, writer) -> None:
+        peer_writer_box.append(writer)
+        connected.set()
+        try:
+            await resume.wait()
+            while True:
+                data = await reader.read(65536)
+                if not data:
+                    break
+                received.extend(data)
+        except OSError:
+            pass
+        finally:
+            writer.close()
+
+    server = await asyncio.start_server(handler, "127.0.0.1", 0)
+    server.sockets[0].setsockopt(socket.SOL_SOCKET, socket.SO_RCVBUF, 4096)
+    transport = TCPTransport("127.0.0.1", server.sockets[0].getsockname()[1])
+    gateway = Gateway(transport, Config())
+    gateway.protocol_version = version
+    gateway.nodes[A] = Node(A, 17, "2.0", children={c: Child(c, 3) for c in range(4)}, sleeping=True)
+    sent: dict[tuple, list[str]] = {}
+    pad = "p" * payload_len
+    listener_errors: list[str] = []
+    try:
+        async with gateway:
+            await asyncio.wait_for(connected.wait(), 10)
+            sock = transport.writer.get_extra_info("socket")
+            sock.setsockopt(socket.SOL_SOCKET, socket.SO_SNDBUF, 4096)
+            keys = [(A, c, t) for t in range(2, 2 + n_parked // 4 + 1) for c in range(4)][:n_parked]
+            for i, (n, c, t) in enumerate(keys):
+                value = f"p{i}-{pad}"
+                sent.setdefault((n, c, t), []).append(value)
+                await gateway.send(Message(n, c, 1, 0, t, value))
+
+            async def listen() -> None:
+                try:
+                    async for _message in gateway.listen():
+                        pass
+                except Exception as exc:  # noqa: BLE001
+                    listener_errors.append(f"{type(exc).__name__}: {exc!s:.80}")
+
+            listener = asyncio.ensure_future(listen())
+            peer = peer_writer_box[0]
+            peer.write(f"{A};255;3;0;{wake};1\n".encode())
+            await peer.drain()
+            await asyncio.sleep(0.3)  # the flush runs into the peer's closed window
+            racers = [keys[0], keys[len(keys) // 2], keys[-1], (A, 0, 9000)]
+            for j, (n, c, t) in enumerate(racers):
+                value = f"racer{j}"
+                sent.setdefault((n, c, t), []).append(value)
+                await asyncio.wait_for(gateway.send(Message(n, c, 1, 0, t, value)), 10)
+            async def settle() -> None:
+                # not a deadline: wait until the peer has received nothing new for a full second and the transport has
+                # nothing queued (on a loaded machine that simply takes longer); 90 s cap as a watchdog only
+                quiet, last = 0, -1
+                for _ in range(900):
+                    await asyncio.sleep(0.1)
+                    size = len(received) + transport.writer.transport.get_write_buffer_size() * 10**9
+                    quiet = quiet + 1 if size == last else 0
+                    last = size
+                    if quiet >= 10:
+                        return
+                ctx.obs("tcp-flush-race-watchdog")
+
+            resume.set()
+            await settle()
+            for _ in range(2):
+                peer.write(f"{A};255;3;0;{wake};1\n".encode())
+                await peer.drain()
+                await settle()
+            listener.cancel()
+            await asyncio.gather(listener, return_exceptions=True)
+        await asyncio.sleep(0.2)
+    finally:
+        server.close()
+        await server.wait_closed()
+    ctx.case(("tcp-flush-race", version, n_parked, payload_len), sample=case)
+    ctx.clause("flush-race-on-real-tcp")
+    written: dict[tuple, list[str]] = {}
+    for raw in bytes(received).decode("utf-8", "replace").split("\n"):
+        parts = raw.split(";", 5)
+        if len(parts) == 6 and parts[2] == "1":
+            written.setdefault((int(parts[0]), int(parts[1]), int(parts[4])), []).append(parts[5])
+    for err in listener_errors:
+        ctx.obs("tcp-flush-race-listener-error:" + err.split(":")[0])
+    for key, values in sent.items():
+        got = written.get(key, [])
+        if not got or got[-1] != values[-1]:
+            ctx.violation("racing-send-never-written" if len(values) > 1 else "command-lost",
+                          f"real TCP, {n_parked} parked, flush stuck in back-pressure: key {key} last sent {values[-1][:12]!r}, "
+                          f"written {[g[:12] for g in got]}", case)
+            break
+        if any(got.count(v) > values.count(v) for v in set(got)):
+            ctx.violation("value-written-twice", f"real TCP: key {key} written {[g[:12] for g in got]} for sends "
+                                                 f"{[v[:12] for v in values]}", case)
+            break
+    for key in written:
+        if key not in sent:
+            ctx.violation("phantom-write", f"real TCP: key {key} was written but never sent", case)
+            break
+
+
 def run_case(ctx, case: dict) -> None:
+    if case.get("kind") == "tcp-flush-race":
+        arun(tcp_flush_race_case(ctx, case["version"], case["parked"], case["payload_len"]))
+        return
     ctx.distinct_outcomes = set()
     outcome = arun(run_schedule(case["config"], case["choices"]))
     judge(ctx, case["config"], case["choices"], outcome, "replay")
@@ -161,6 +290,12 @@ def run(ctx) -> None:
                 ctx.clause("mass-race")
                 ctx.obs(f"mass-race-parked:{size}")
                 judge(ctx, config, outcome.choices, outcome, "mass")
+        for i, (version, n_parked, payload_len) in enumerate([("2.0", 300, 1000), ("2.2", 40, 4000), ("2.1", 600, 300)]):
+            if ctx.mine(i + 2):
+                try:
+                    arun(tcp_flush_race_case(ctx, version, n_parked, payload_len))
+                except OSError as err:
+                    ctx.skip("loopback-tcp", str(err))
     reach.into(ctx)
     ctx.obs("distinct-final-outcomes", len(ctx.distinct_outcomes))
     ctx.require("schedule-judged", 100)
